@@ -69,6 +69,20 @@ public:
       data = &nullData;
     }
 
+    Variant& operator=(const Variant& other)
+    {
+      if(other.data != data)
+      {
+        Data* otherData = other.data; // other may be part of the payload that clear() releases
+        if(otherData->ref)
+          Atomic::increment(otherData->ref);
+        clear();
+        if(otherData->ref)
+          data = otherData;
+      }
+      return *this;
+    }
+
     Type getType() const {return data->type;}
     bool isNull() const {return data->type == nullType;}
 
